@@ -25,49 +25,49 @@ var props = map[string]propDef{
 	"C01": {
 		ID: "C01", Harness: "h3txn", Mode: "C01", Pkgs: dbPkgs,
 		QuickS: 60, ThoroughS: 600, Recycle: 400, Level: "exploration",
-		Rule: "each run: tape-chosen schema family (A one table with key/index/unique; B composite key + key() table; C parent/child with block / cascade / cascade update foreign key; D two tables), 1-6 update clients x 1-5 transactions x 1-8 operations (lookup, forward/backward/partial scan, output, update, delete, think, abort/complete) over a 2-8 value key domain, 0-3 long-lived readers, optional admin client (index creation on a populated table, persist, full check), with MaxAge 3-20 ticks, persist interval 0.3-60 s, btree split 4-100, chunk size 16-128 KB, hash degraded to 64/16/6 bits; the tape decides every interleaving of clients, checker, merger and the 16 workers. Non-trivial: at least 2 commits were published and (some transaction committed after another transaction's commit was published since its snapshot, or at least 4 non-commit states (merges, persists, schema changes) were published). Distinct: run digest. Mix for this property: favours scans and small key domains.",
+		Rule: "each run: tape-chosen schema family (A one table with key/index/unique, the unique index sometimes on a lower case column; B composite key + key() table; C parent/child with block / cascade / cascade update foreign key, also composite with zero bytes; D two tables; E self-referencing tree; G header <- middle <- low; H one key with two referrers), 1-6 update clients x 1-5 transactions x 1-8 operations (lookup, forward/backward/partial scan, output, update, delete, think, abort/complete) over a 2-8 value key domain, 0-3 long-lived readers, optional admin client (index creation on a populated table, persist, full check, scratch tables created and dropped), client stalls inside operations, write-through-stale-offset probes, complete-after-abort, the final Persist read back from the store, with MaxAge 3-20 ticks, persist interval 0.3-60 s, btree split 4-100, chunk size 16-128 KB, hash salted per run and degraded to 64/16/6/4/3 bits or to 1-3 bit root slots; the tape decides every interleaving of clients, checker, merger and the 16 workers. Non-trivial: at least 2 commits were published and (some transaction committed after another transaction's commit was published since its snapshot, or at least 4 non-commit states (merges, persists, schema changes) were published). Distinct: run digest. Mix for this property: favours scans and small key domains.",
 		Assume: h3assume,
 		Comps: map[string]string{"db19 (Database, Check, CheckCo, tran, state, concur incl. 16 workers, meta, index overlay/ixbuf/btree, stor)": "real", "util/queue, util/ranges, util/ordset": "real", "dbms/query admin parser + DoAdmin": "real", "storage": "real heapStor (in memory)", "query engine / interpreter / triggers": "stub: MakeSuTran returns an empty SuTran; no Trigger_ globals", "sync, sync/atomic, channels, select, time, rand, maphash, log": "simulated seams (simrt)"},
 	},
 	"C02": {
 		ID: "C02", Harness: "h3txn", Mode: "C02", Pkgs: dbPkgs,
 		QuickS: 60, ThoroughS: 600, Recycle: 400, Level: "exploration",
-		Rule: "each run: tape-chosen schema family (A one table with key/index/unique; B composite key + key() table; C parent/child with block / cascade / cascade update foreign key; D two tables), 1-6 update clients x 1-5 transactions x 1-8 operations (lookup, forward/backward/partial scan, output, update, delete, think, abort/complete) over a 2-8 value key domain, 0-3 long-lived readers, optional admin client (index creation on a populated table, persist, full check), with MaxAge 3-20 ticks, persist interval 0.3-60 s, btree split 4-100, chunk size 16-128 KB, hash degraded to 64/16/6 bits; the tape decides every interleaving of clients, checker, merger and the 16 workers. Non-trivial: at least 2 commits were published and (some transaction committed after another transaction's commit was published since its snapshot, or at least 4 non-commit states (merges, persists, schema changes) were published). Distinct: run digest. Mix for this property: 1-3 long lived readers.",
+		Rule: "each run: tape-chosen schema family (A one table with key/index/unique, the unique index sometimes on a lower case column; B composite key + key() table; C parent/child with block / cascade / cascade update foreign key, also composite with zero bytes; D two tables; E self-referencing tree; G header <- middle <- low; H one key with two referrers), 1-6 update clients x 1-5 transactions x 1-8 operations (lookup, forward/backward/partial scan, output, update, delete, think, abort/complete) over a 2-8 value key domain, 0-3 long-lived readers, optional admin client (index creation on a populated table, persist, full check, scratch tables created and dropped), client stalls inside operations, write-through-stale-offset probes, complete-after-abort, the final Persist read back from the store, with MaxAge 3-20 ticks, persist interval 0.3-60 s, btree split 4-100, chunk size 16-128 KB, hash salted per run and degraded to 64/16/6/4/3 bits or to 1-3 bit root slots; the tape decides every interleaving of clients, checker, merger and the 16 workers. Non-trivial: at least 2 commits were published and (some transaction committed after another transaction's commit was published since its snapshot, or at least 4 non-commit states (merges, persists, schema changes) were published). Distinct: run digest. Mix for this property: 1-3 long lived readers.",
 		Assume: h3assume,
 		Comps: map[string]string{"db19 (Database, Check, CheckCo, tran, state, concur incl. 16 workers, meta, index overlay/ixbuf/btree, stor)": "real", "util/queue, util/ranges, util/ordset": "real", "dbms/query admin parser + DoAdmin": "real", "storage": "real heapStor (in memory)", "query engine / interpreter / triggers": "stub: MakeSuTran returns an empty SuTran; no Trigger_ globals", "sync, sync/atomic, channels, select, time, rand, maphash, log": "simulated seams (simrt)"},
 	},
 	"C03": {
 		ID: "C03", Harness: "h3txn", Mode: "C03", Pkgs: dbPkgs,
 		QuickS: 60, ThoroughS: 600, Recycle: 400, Level: "exploration",
-		Rule: "each run: tape-chosen schema family (A one table with key/index/unique; B composite key + key() table; C parent/child with block / cascade / cascade update foreign key; D two tables), 1-6 update clients x 1-5 transactions x 1-8 operations (lookup, forward/backward/partial scan, output, update, delete, think, abort/complete) over a 2-8 value key domain, 0-3 long-lived readers, optional admin client (index creation on a populated table, persist, full check), with MaxAge 3-20 ticks, persist interval 0.3-60 s, btree split 4-100, chunk size 16-128 KB, hash degraded to 64/16/6 bits; the tape decides every interleaving of clients, checker, merger and the 16 workers. Non-trivial: at least 2 commits were published and (some transaction committed after another transaction's commit was published since its snapshot, or at least 4 non-commit states (merges, persists, schema changes) were published). Distinct: run digest. Mix for this property: more aborts, think times beyond MaxAge.",
+		Rule: "each run: tape-chosen schema family (A one table with key/index/unique, the unique index sometimes on a lower case column; B composite key + key() table; C parent/child with block / cascade / cascade update foreign key, also composite with zero bytes; D two tables; E self-referencing tree; G header <- middle <- low; H one key with two referrers), 1-6 update clients x 1-5 transactions x 1-8 operations (lookup, forward/backward/partial scan, output, update, delete, think, abort/complete) over a 2-8 value key domain, 0-3 long-lived readers, optional admin client (index creation on a populated table, persist, full check, scratch tables created and dropped), client stalls inside operations, write-through-stale-offset probes, complete-after-abort, the final Persist read back from the store, with MaxAge 3-20 ticks, persist interval 0.3-60 s, btree split 4-100, chunk size 16-128 KB, hash salted per run and degraded to 64/16/6/4/3 bits or to 1-3 bit root slots; the tape decides every interleaving of clients, checker, merger and the 16 workers. Non-trivial: at least 2 commits were published and (some transaction committed after another transaction's commit was published since its snapshot, or at least 4 non-commit states (merges, persists, schema changes) were published). Distinct: run digest. Mix for this property: more aborts, think times beyond MaxAge.",
 		Assume: h3assume,
 		Comps: map[string]string{"db19 (Database, Check, CheckCo, tran, state, concur incl. 16 workers, meta, index overlay/ixbuf/btree, stor)": "real", "util/queue, util/ranges, util/ordset": "real", "dbms/query admin parser + DoAdmin": "real", "storage": "real heapStor (in memory)", "query engine / interpreter / triggers": "stub: MakeSuTran returns an empty SuTran; no Trigger_ globals", "sync, sync/atomic, channels, select, time, rand, maphash, log": "simulated seams (simrt)"},
 	},
 	"C06": {
 		ID: "C06", Harness: "h3txn", Mode: "C06", Pkgs: dbPkgs,
 		QuickS: 60, ThoroughS: 600, Recycle: 400, Level: "exploration",
-		Rule: "each run: tape-chosen schema family (A one table with key/index/unique; B composite key + key() table; C parent/child with block / cascade / cascade update foreign key; D two tables), 1-6 update clients x 1-5 transactions x 1-8 operations (lookup, forward/backward/partial scan, output, update, delete, think, abort/complete) over a 2-8 value key domain, 0-3 long-lived readers, optional admin client (index creation on a populated table, persist, full check), with MaxAge 3-20 ticks, persist interval 0.3-60 s, btree split 4-100, chunk size 16-128 KB, hash degraded to 64/16/6 bits; the tape decides every interleaving of clients, checker, merger and the 16 workers. Non-trivial: at least 2 commits were published and (some transaction committed after another transaction's commit was published since its snapshot, or at least 4 non-commit states (merges, persists, schema changes) were published). Distinct: run digest. Mix for this property: three-index tables, index creation, cascades.",
+		Rule: "each run: tape-chosen schema family (A one table with key/index/unique, the unique index sometimes on a lower case column; B composite key + key() table; C parent/child with block / cascade / cascade update foreign key, also composite with zero bytes; D two tables; E self-referencing tree; G header <- middle <- low; H one key with two referrers), 1-6 update clients x 1-5 transactions x 1-8 operations (lookup, forward/backward/partial scan, output, update, delete, think, abort/complete) over a 2-8 value key domain, 0-3 long-lived readers, optional admin client (index creation on a populated table, persist, full check, scratch tables created and dropped), client stalls inside operations, write-through-stale-offset probes, complete-after-abort, the final Persist read back from the store, with MaxAge 3-20 ticks, persist interval 0.3-60 s, btree split 4-100, chunk size 16-128 KB, hash salted per run and degraded to 64/16/6/4/3 bits or to 1-3 bit root slots; the tape decides every interleaving of clients, checker, merger and the 16 workers. Non-trivial: at least 2 commits were published and (some transaction committed after another transaction's commit was published since its snapshot, or at least 4 non-commit states (merges, persists, schema changes) were published). Distinct: run digest. Mix for this property: three-index tables, index creation, cascades.",
 		Assume: h3assume,
 		Comps: map[string]string{"db19 (Database, Check, CheckCo, tran, state, concur incl. 16 workers, meta, index overlay/ixbuf/btree, stor)": "real", "util/queue, util/ranges, util/ordset": "real", "dbms/query admin parser + DoAdmin": "real", "storage": "real heapStor (in memory)", "query engine / interpreter / triggers": "stub: MakeSuTran returns an empty SuTran; no Trigger_ globals", "sync, sync/atomic, channels, select, time, rand, maphash, log": "simulated seams (simrt)"},
 	},
 	"C07": {
 		ID: "C07", Harness: "h3txn", Mode: "C07", Pkgs: dbPkgs,
 		QuickS: 60, ThoroughS: 600, Recycle: 400, Level: "exploration",
-		Rule: "each run: tape-chosen schema family (A one table with key/index/unique; B composite key + key() table; C parent/child with block / cascade / cascade update foreign key; D two tables), 1-6 update clients x 1-5 transactions x 1-8 operations (lookup, forward/backward/partial scan, output, update, delete, think, abort/complete) over a 2-8 value key domain, 0-3 long-lived readers, optional admin client (index creation on a populated table, persist, full check), with MaxAge 3-20 ticks, persist interval 0.3-60 s, btree split 4-100, chunk size 16-128 KB, hash degraded to 64/16/6 bits; the tape decides every interleaving of clients, checker, merger and the 16 workers. Non-trivial: at least 2 commits were published and (some transaction committed after another transaction's commit was published since its snapshot, or at least 4 non-commit states (merges, persists, schema changes) were published). Distinct: run digest. Mix for this property: collision mix on key and unique values.",
+		Rule: "each run: tape-chosen schema family (A one table with key/index/unique, the unique index sometimes on a lower case column; B composite key + key() table; C parent/child with block / cascade / cascade update foreign key, also composite with zero bytes; D two tables; E self-referencing tree; G header <- middle <- low; H one key with two referrers), 1-6 update clients x 1-5 transactions x 1-8 operations (lookup, forward/backward/partial scan, output, update, delete, think, abort/complete) over a 2-8 value key domain, 0-3 long-lived readers, optional admin client (index creation on a populated table, persist, full check, scratch tables created and dropped), client stalls inside operations, write-through-stale-offset probes, complete-after-abort, the final Persist read back from the store, with MaxAge 3-20 ticks, persist interval 0.3-60 s, btree split 4-100, chunk size 16-128 KB, hash salted per run and degraded to 64/16/6/4/3 bits or to 1-3 bit root slots; the tape decides every interleaving of clients, checker, merger and the 16 workers. Non-trivial: at least 2 commits were published and (some transaction committed after another transaction's commit was published since its snapshot, or at least 4 non-commit states (merges, persists, schema changes) were published). Distinct: run digest. Mix for this property: collision mix on key and unique values.",
 		Assume: h3assume,
 		Comps: map[string]string{"db19 (Database, Check, CheckCo, tran, state, concur incl. 16 workers, meta, index overlay/ixbuf/btree, stor)": "real", "util/queue, util/ranges, util/ordset": "real", "dbms/query admin parser + DoAdmin": "real", "storage": "real heapStor (in memory)", "query engine / interpreter / triggers": "stub: MakeSuTran returns an empty SuTran; no Trigger_ globals", "sync, sync/atomic, channels, select, time, rand, maphash, log": "simulated seams (simrt)"},
 	},
 	"C08": {
 		ID: "C08", Harness: "h3txn", Mode: "C08", Pkgs: dbPkgs,
-		QuickS: 60, ThoroughS: 600, Recycle: 400, Level: "exploration",
-		Rule: "each run: tape-chosen schema family (A one table with key/index/unique; B composite key + key() table; C parent/child with block / cascade / cascade update foreign key; D two tables), 1-6 update clients x 1-5 transactions x 1-8 operations (lookup, forward/backward/partial scan, output, update, delete, think, abort/complete) over a 2-8 value key domain, 0-3 long-lived readers, optional admin client (index creation on a populated table, persist, full check), with MaxAge 3-20 ticks, persist interval 0.3-60 s, btree split 4-100, chunk size 16-128 KB, hash degraded to 64/16/6 bits; the tape decides every interleaving of clients, checker, merger and the 16 workers. Non-trivial: at least 2 commits were published and (some transaction committed after another transaction's commit was published since its snapshot, or at least 4 non-commit states (merges, persists, schema changes) were published). Distinct: run digest. Mix for this property: parent/child schemas only.",
+		QuickS: 90, ThoroughS: 600, Recycle: 400, Level: "exploration",
+		Rule: "each run: tape-chosen schema family (A one table with key/index/unique, the unique index sometimes on a lower case column; B composite key + key() table; C parent/child with block / cascade / cascade update foreign key, also composite with zero bytes; D two tables; E self-referencing tree; G header <- middle <- low; H one key with two referrers), 1-6 update clients x 1-5 transactions x 1-8 operations (lookup, forward/backward/partial scan, output, update, delete, think, abort/complete) over a 2-8 value key domain, 0-3 long-lived readers, optional admin client (index creation on a populated table, persist, full check, scratch tables created and dropped), client stalls inside operations, write-through-stale-offset probes, complete-after-abort, the final Persist read back from the store, with MaxAge 3-20 ticks, persist interval 0.3-60 s, btree split 4-100, chunk size 16-128 KB, hash salted per run and degraded to 64/16/6/4/3 bits or to 1-3 bit root slots; the tape decides every interleaving of clients, checker, merger and the 16 workers. Non-trivial: at least 2 commits were published and (some transaction committed after another transaction's commit was published since its snapshot, or at least 4 non-commit states (merges, persists, schema changes) were published). Distinct: run digest. Mix for this property: parent/child schemas only.",
 		Assume: h3assume,
 		Comps: map[string]string{"db19 (Database, Check, CheckCo, tran, state, concur incl. 16 workers, meta, index overlay/ixbuf/btree, stor)": "real", "util/queue, util/ranges, util/ordset": "real", "dbms/query admin parser + DoAdmin": "real", "storage": "real heapStor (in memory)", "query engine / interpreter / triggers": "stub: MakeSuTran returns an empty SuTran; no Trigger_ globals", "sync, sync/atomic, channels, select, time, rand, maphash, log": "simulated seams (simrt)"},
 	},
 	"C16": {
 		ID: "C16", Harness: "h3txn", Mode: "C16", Pkgs: dbPkgs,
 		QuickS: 60, ThoroughS: 600, Recycle: 400, Level: "exploration",
-		Rule: "each run: tape-chosen schema family (A one table with key/index/unique; B composite key + key() table; C parent/child with block / cascade / cascade update foreign key; D two tables), 1-6 update clients x 1-5 transactions x 1-8 operations (lookup, forward/backward/partial scan, output, update, delete, think, abort/complete) over a 2-8 value key domain, 0-3 long-lived readers, optional admin client (index creation on a populated table, persist, full check), with MaxAge 3-20 ticks, persist interval 0.3-60 s, btree split 4-100, chunk size 16-128 KB, hash degraded to 64/16/6 bits; the tape decides every interleaving of clients, checker, merger and the 16 workers. Non-trivial: at least 2 commits were published and (some transaction committed after another transaction's commit was published since its snapshot, or at least 4 non-commit states (merges, persists, schema changes) were published). Distinct: run digest. Mix for this property: tiny commits, persist interval <= 2 s, admin operations.",
+		Rule: "each run: tape-chosen schema family (A one table with key/index/unique, the unique index sometimes on a lower case column; B composite key + key() table; C parent/child with block / cascade / cascade update foreign key, also composite with zero bytes; D two tables; E self-referencing tree; G header <- middle <- low; H one key with two referrers), 1-6 update clients x 1-5 transactions x 1-8 operations (lookup, forward/backward/partial scan, output, update, delete, think, abort/complete) over a 2-8 value key domain, 0-3 long-lived readers, optional admin client (index creation on a populated table, persist, full check, scratch tables created and dropped), client stalls inside operations, write-through-stale-offset probes, complete-after-abort, the final Persist read back from the store, with MaxAge 3-20 ticks, persist interval 0.3-60 s, btree split 4-100, chunk size 16-128 KB, hash salted per run and degraded to 64/16/6/4/3 bits or to 1-3 bit root slots; the tape decides every interleaving of clients, checker, merger and the 16 workers. Non-trivial: at least 2 commits were published and (some transaction committed after another transaction's commit was published since its snapshot, or at least 4 non-commit states (merges, persists, schema changes) were published). Distinct: run digest. Mix for this property: tiny commits, persist interval <= 2 s, admin operations.",
 		Assume: h3assume,
 		Comps: map[string]string{"db19 (Database, Check, CheckCo, tran, state, concur incl. 16 workers, meta, index overlay/ixbuf/btree, stor)": "real", "util/queue, util/ranges, util/ordset": "real", "dbms/query admin parser + DoAdmin": "real", "storage": "real heapStor (in memory)", "query engine / interpreter / triggers": "stub: MakeSuTran returns an empty SuTran; no Trigger_ globals", "sync, sync/atomic, channels, select, time, rand, maphash, log": "simulated seams (simrt)"},
 	},
